@@ -15,7 +15,10 @@ def one(d):
         if subprocess.run(['patch','-s','-p1','-i',d+'patch.diff'],cwd=T+'/repo').returncode!=0:
             return name,{'error':'patch does not apply'}
         fired={}
-        for p in props:
+        plist=props
+        if os.environ.get('OWN'):
+            plist=[json.load(open(d+'meta.json'))['property']]
+        for p in plist:
             r=subprocess.run(['/verif/bin/govc','-repo',T+'/repo','-specs','/verif/specs','-prop',p,'-tier','quick','-replaydir',T+'/replay'],cwd='/verif',capture_output=True,text=True,env=env)
             obs=sorted(set(l.split('replay=')[1].split()[0].split('/')[-1][:-5] for l in r.stdout.splitlines() if l.startswith('VIOLATION')))
             und=[l for l in r.stdout.splitlines() if l.startswith('UNDECIDED')]
